@@ -2,7 +2,7 @@
 # usage: keep_seeded.sh <tag>   -- confirm every candidate of /tmp/mutout-<tag> in /tmp/mutw-<tag>, keep the
 # confirmed ones under /verif/seeded/<id>/, then remove the scratch worktree and the candidate directory.
 t=$1
-for c in /tmp/mutout-$t/C[0-9][0-9]-[0-9]; do
+for c in /tmp/mutout-$t/C[0-9][0-9]-[0-9] /tmp/mutout-$t/C[0-9][0-9]-[0-9][0-9]; do
   [ -d "$c" ] || continue
   v=$(/verif/tools/confirm_seeded.sh /tmp/mutw-$t $c 2>&1 | tail -1); echo "$v"
   case "$v" in *"demo_without=0 demo_with="[1-9]*" make_check=unchanged"*|*"demo_without=0 demo_with=1"[0-9]*" make_check=unchanged"*) ;; *) echo "  NOT KEPT: $c"; continue;; esac
@@ -13,7 +13,7 @@ import json,sys
 c,d,v=sys.argv[1:4]
 m=json.load(open(c+'/meta.json'))
 m['confirmed_by_coordinator']={'worktree':'scratch git worktree of /repo HEAD (repaired tree) under /tmp, removed afterwards','ran':'tools/confirm_seeded.sh: git apply, make, demo before/after, make check vs pristine','verdict':v.split(': ',1)[-1]}
-m['origin']='independent sub-agent (wave 2) given only the property text and a scratch worktree'
+m['origin']='independent sub-agent given only the property text and a scratch worktree'
 json.dump(m,open(d+'/meta.json','w'),indent=1)
 PY
 done
